@@ -160,6 +160,8 @@ def run(inp):
                 x = apply_op(op, x)
         except Exception as e:  # noqa
             return ["raise", exn_name(e), extra]
+        if not isinstance(x, FmtStr):          # a call answered with something that is not a FmtStr
+            return ["raise", "OtherError", extra]
         try:
             runs = canon.canon_fs(x)
         except Unrepresentable:
@@ -401,12 +403,27 @@ def outside_spec(rng):
     return args, kw, "style-positional-and-kw"
 
 
-UNPARSED = ["\x1b[22mab", "a\x1b[1;mb", "\x1b[90mx\x1b[39m", "p\x1b[24mq\x1b[29m", "\x1b[38;2;1;2;3mrgb", "k\x1b[2Aup", "\x9b97mz"]
+def _fmtfunc_names():
+    """the formatting helpers the module defines: partials, and functions defined in the module itself (not what it
+    merely imports: typing names, classes, fmtstr / parse_args of formatstring)"""
+    import functools
+    names = []
+    for n, v in sorted(vars(fmtfuncs).items()):
+        if n.startswith("_") or n == "fmtstr" or isinstance(v, type) or not callable(v):
+            continue
+        if isinstance(v, functools.partial) or getattr(v, "__module__", None) == fmtfuncs.__name__:
+            names.append(n)
+    return names
+
+
+UNPARSED = ["\x1b[22mab", "a\x1b[1;mb", "\x1b[90mx\x1b[39m", "p\x1b[24mq\x1b[29m", "\x1b[38;2;1;2;3mrgb", "k\x1b[2Aup", "\x9b97mz",
+            # ... and terminal output it parses entirely, in either CSI form (judged the same way)
+            "\x9b1mbold\x9b0m rest", "\x9b31mr", "a\x9b44mz\x9b49m", "\x1b[1mb\x1b[0m", "\x1b[4;32mu\x1b[24mv", "q\x9b7m"]
 
 
 def rand_start(rng):
     r = rng.random()
-    if r < 0.05:
+    if r < 0.08:
         return ["su", rng.choice(UNPARSED)]
     if r < 0.3:
         return ["s", canon.rand_text(rng, 5)]
@@ -485,7 +502,7 @@ def generate(rng, tier):
                 op = as_func_op(rng, args, kw) or op
             yield ["prog", rand_start(rng), [op]]
     # 2. all fmtfuncs on their own, each on a str and on a FmtStr
-    for name in sorted(n for n in vars(fmtfuncs) if not n.startswith("_") and n != "fmtstr"):
+    for name in _fmtfunc_names():
         yield ["prog", ["s", canon.rand_text(rng, 4) or "x"], [["func", name, [], []]]]
         yield ["prog", ["f", canon.rand_runs(rng)], [["func", name, [], []]]]
     # 3. nestings: chains of calls, same and different attributes, removals in between
